@@ -8,6 +8,25 @@ ROOT = os.path.dirname(os.path.dirname(os.path.abspath(__file__)))
 props = [json.loads(l) for l in open(os.path.join(ROOT, "properties.jsonl"))]
 
 CHECKS = {
+    "C08": dict(
+        text="Every pack write and index write observed in real runs of backup, prune (fast and re-encoding repack), merge, "
+             "rewrite and repair is decoded by an independent parser and checked, as step obligations of RepoTrace.tla, for "
+             "PackSelfDescribing and PackIndexAgree. Index files are then removed (all / random subsets) and repair-index run: "
+             "RepoTrace's Rebuild formula plus the real check/restore decide. Repo.tla with lost index files proves Rebuilt "
+             "for all histories <= 4 commands.",
+        note="The independent decoder shares the primitive crates (AES-CTR/Poly1305, SHA-256, zstd) with the implementation. "
+             "Copy as a pack writer is covered under C12.",
+        technique="independent format decoder feeding TLC trace validation + TLC model of index loss and repair",
+        design="4/C08"),
+    "C15": dict(
+        text="Prog.tla enumerates all programs of <= 2 public operations (simulated up to 4) which are run on an append-only "
+             "repository holding garbage and damage; every command is also run with its dry-run flag. RepoTrace.tla checks "
+             "on the storage log: no remove/overwrite of snapshot, index or pack files while append-only, commands refused "
+             "for append-only have issued no mutating operation, dry-run commands issue none at all. Repo.tla with "
+             "AppendOnly proves the action property NoRemoval.",
+        note="Key files are outside the statement (deviation D3). copy-into an append-only destination is exercised under C12.",
+        technique="TLC-generated operation programs replayed on the real repository + TLC trace validation of the storage log",
+        design="4/C15"),
     "C02": dict(
         text="Hist.tla enumerates every meaningful history of length 4/5 over backup, stale backup, forget, prune(instant?), tick "
              "(plus simulated length-7 histories that can reach Recover); each is executed on the real repository with seeded "
